@@ -156,13 +156,15 @@ theorem step_wf {s s' : State} {op : Op} {evs : List Ev} (h : StateWF s) (e : st
           split at e
           · simp only [Except.map] at e; cases e; exact h
           · split at e
-            · simp only [Except.map] at e; cases e
-            · rename_i job' ha
-              simp only [Except.map] at e
-              cases e
-              have hjid := getJob_id hj
-              exact (StateWF.putJob h (by rw [hjid]; exact hj) (attach_id _ ha)
-                (JobWF.attach _ (getJob_wf h hj) ha)).withSent _
+            · simp only [Except.map] at e; cases e; exact h
+            · split at e
+              · simp only [Except.map] at e; cases e
+              · rename_i job' ha
+                simp only [Except.map] at e
+                cases e
+                have hjid := getJob_id hj
+                exact (StateWF.putJob h (by rw [hjid]; exact hj) (attach_id _ ha)
+                  (JobWF.attach _ (getJob_wf h hj) ha)).withSent _
       · -- a new closed job
         split at e
         · simp only [Except.map] at e; cases e
